@@ -593,7 +593,7 @@ def write_manifest():
             "guard": "cargo feature verif_hooks (logos-codegen and logos)",
             "enable": "engines depend on /repo/logos-codegen and /repo by path with features = [\"verif_hooks\"]",
             "baseline_off_cmd": "cd /repo && cargo test --workspace --no-fail-fast --offline",
-            "source_commits": ["c9cc40e", "3fbd0f5", "36f9ccf", "18e7083", "02a1c71", "e31bf22"],
+            "source_commits": ["c9cc40e", "3fbd0f5", "36f9ccf", "18e7083", "02a1c71", "e31bf22", "dfd4400"],
             "add_only": True,
         },
         "engines": [
